@@ -183,4 +183,11 @@ def parseValidator (attrs : List (Option Str)) : Option Parsed :=
         email := acc.email || containsSub kwEmail t,
         url := acc.url || containsSub kwUrl t }) { length := none, range := none, email := false, url := false })
 
+/-- the parsed validator as the schema builder receives it: `u64` bounds printed, `f64` bounds as the canonical decimal
+    of the literal (a bound whose text is no number is dropped, as `parse::<f64>()` failing drops it) -/
+def toValidator (p : Parsed) : V.Validator :=
+  { length := p.length.map fun b => { min := b.min.map natToStr, max := b.max.map natToStr, message := b.message },
+    range := p.range.map fun b => { min := b.min.bind canonDec, max := b.max.bind canonDec, message := b.message },
+    email := p.email, url := p.url }
+
 end VP
